@@ -51,6 +51,7 @@ type HarnessResult struct {
 	ValidationMismatch []string
 	Notes              []string
 	NoNative           bool
+	NoValidate         bool
 }
 
 var pkgClauseRe = regexp.MustCompile(`(?m)^package\s+(\w+)`)
